@@ -71,7 +71,7 @@ type Config struct {
 	// order the implementation took.  nil: sorted key order.
 	MapOrder func(remaining []string, logLen int) int
 	// OnSignal, when set, is called with the Tag of every executed Break /
-	// Continue / Return / Throw statement whose Tag is not 0 (lets a checker
+	// Continue / Return / Throw / expression statement whose Tag is not 0 (lets a checker
 	// measure that the statement under test was reached).
 	OnSignal func(tag int)
 }
@@ -293,6 +293,7 @@ func (in *interp) exec(s Stmt, sc *Scope, fr *frame) ctl {
 	in.tick()
 	switch s := s.(type) {
 	case ExprStmt:
+		in.signal(s.Tag)
 		v, c := in.eval(s.X, sc, fr)
 		if c != ctlNone {
 			return c
